@@ -61,6 +61,7 @@ func samVarGen(r *RNG, id string, maxIns int, window bool) *Case {
 		c.Tag("insertions")
 	}
 	c.NonTrv = true
+	maybeCLI(r, c, 6)
 	return c
 }
 
@@ -68,6 +69,28 @@ func runSamVariants(c *Case, agg bool) result {
 	txt, _ := caseSam(c)
 	refTxt := renderFasta([]string{c.Get("rname")}, []string{c.Get("ref")}, layout{width: 60})
 	thr := decThr(atoi(c.Get("thrn")), max1(atoi(c.Get("thrd"))))
+	if isCLI(c) {
+		suffix := c.Get("annfmt")
+		args := []string{"sam", "variants", "-s", "{dir}/a.sam", "-a", "{dir}/ann." + suffix, "-t", c.Get("threads")}
+		files := map[string]string{"a.sam": txt, "ann." + suffix: c.Get("anntext")}
+		if c.Get("reffromfile") == "1" {
+			args = append(args, "-r", "{dir}/r.fa")
+			files["r.fa"] = refTxt
+		}
+		if atoi(c.Get("start")) != -1 {
+			args = append(args, "--start", c.Get("start"))
+		}
+		if atoi(c.Get("end")) != -1 {
+			args = append(args, "--end", c.Get("end"))
+		}
+		if agg {
+			args = append(args, "--aggregate", "--threshold", decStr(atoi(c.Get("thrn")), max1(atoi(c.Get("thrd")))))
+		}
+		if c.Get("append") == "1" {
+			args = append(args, "--append-snps")
+		}
+		return viaCLI(files, "", args, nil)
+	}
 	return safeRun(30*time.Second, func() (string, error) {
 		var out bytes.Buffer
 		err := sam.Variants(strings.NewReader(txt), strings.NewReader(refTxt), c.Get("reffromfile") == "1", strings.NewReader(c.Get("anntext")),
